@@ -315,7 +315,7 @@ Section Total.
     - apply in_flat_map in Hin as ([b1 f1] & H1 & H2). simpl in H2. destruct f1.
       + eauto.
       + destruct H2 as [[= <- <-]|[]]. eauto.
-    - apply in_app_or in Hin as [Hin|Hin]; [|eauto].
+    - apply in_app_or in Hin as [Hin|Hin]; [|apply filter_In in Hin as [Hin _]; eauto].
       apply in_flat_map in Hin as ([b1 f1] & H1 & H2). simpl in H2. destruct f1.
       + eauto.
       + destruct H2 as [[= <- <-]|[]]. eauto.
